@@ -31,7 +31,7 @@ from .common import harness_connection, lock_name, native_connection, raw
 ASSUMPTIONS = [
     '_connect / _start_network_thread are used through their C16 contracts (fresh empty queue, connected; one thread)',
     'json.loads returns the parsed status object (opaque) or raises ValueError',
-    'timeit.default_timer is monotone non-decreasing',
+    'timeit.default_timer is monotone non-decreasing; time.time is an adjustable wall clock (successive readings unrelated)',
     'the allowed-version set in the negotiation unit is an abstract set (uninterpreted membership); in the connect-shape '
     'unit every singleton of a supported version and three multi-element sets are enumerated',
 ]
@@ -515,6 +515,13 @@ class ConnectShape(Unit):
             E.check('status.request', type(second) is serverbound.status.RequestPacket)
             E.check('status.reactor', type(conn.reactor) is PlayingStatusReactor and conn.reactor.do_ping is False)
         E.check('connect.spawned-reset', conn.spawned is False)
+        r = conn.reactor
+        want = dict((p.get_id(conn.context), p) for p in type(r).get_clientbound_packets(conn.context)) \
+            if isinstance(r, PacketReactor) else None
+        E.check('connect.reactor-table-for-context', want is not None and getattr(r, 'clientbound_packets', None) == want,
+                note='the id -> class table of the reactor connect() installs is the one of the protocol version the context holds '
+                     'when connect() returns (here the context held 47 before): a reactor built before the context is updated decodes '
+                     'with the ids of the earlier version')
         return None
 
     def replay(self, model, label):
@@ -529,11 +536,14 @@ class ConnectShape(Unit):
 def replay_shape():
     n = 0
     idx = minecraft.PROTOCOL_VERSION_INDICES
-    for allowed in ({757}, {47}, {47, 757}, None):
+    for allowed in ({757}, {47}, {47, 757}, None, 'negotiated-387'):
         for tok in (False, True):
             n += 1
-            c = Connection('host.example', 12345, username='user', allowed_versions=allowed,
+            c = Connection('host.example', 12345, username='user', allowed_versions=None if allowed == 'negotiated-387' else allowed,
                            auth_token=FakeToken('profile') if tok else None)
+            if allowed == 'negotiated-387':
+                # what PlayingStatusReactor.handle_proto_version does once the server has named its version
+                c.allowed_proto_versions = {387}
             c._connect = lambda c=c: setattr(c, '_outgoing_packet_queue', deque())
             c._start_network_thread = lambda: None
             c.connect()
@@ -552,6 +562,15 @@ def replay_shape():
                     bad = 'second packet %r' % (q[1],)
                 elif not single and q[1].packet_name != 'request':
                     bad = 'second packet %r' % (q[1],)
+                else:
+                    want = dict((p.get_id(c.context), p) for p in type(c.reactor).get_clientbound_packets(c.context))
+                    if c.reactor.clientbound_packets != want:
+                        d = sorted(k for k in set(want) | set(c.reactor.clientbound_packets)
+                                   if want.get(k) is not c.reactor.clientbound_packets.get(k))
+                        bad = ('the context holds protocol %d but the %s decodes id(s) %s as %s where that version has %s'
+                               % (c.context.protocol_version, type(c.reactor).__name__, d,
+                                  [getattr(c.reactor.clientbound_packets.get(k), '__name__', None) for k in d],
+                                  [getattr(want.get(k), '__name__', None) for k in d]))
             if bad:
                 return dict(confirmed=True, n=n, call='connect() with allowed=%r token=%r' % (allowed, tok), observed=bad)
     return dict(confirmed=False, n=n, call='connect() queue shape', observed='conforms')
@@ -586,6 +605,10 @@ class StatusQuery(Unit):
             unit.clock = t
             return t
         I.override(timeit.default_timer, timer, kind='assumed')
+        import time as _time
+        # the wall clock can be set back between two readings (NTP step, manual change, VM resume): successive readings of
+        # time.time are unrelated reals, so a latency computed from it has no sign (seeded change C09-r16)
+        I.override(_time.time, lambda I_: I_.E.new_real('wall'), kind='assumed')
 
     def run(self, I):
         E = I.E
@@ -639,7 +662,53 @@ class StatusQuery(Unit):
         return None
 
     def replay(self, model, label):
+        if label.startswith('ping.latency'):
+            return replay_latency()
         return dict(confirmed=False, call='status()', observed='')
+
+    def bounded(self, rng, tier):
+        rp = replay_latency()
+        return dict(name='C09.status.latency-under-a-stepped-wall-clock', evaluations=1, bound='one status query with ping while '
+                    'time.time is set back 5 s between readings (the monotonic timers run on)',
+                    failures=[dict(call=rp['call'], observed=rp['observed'], witness='wall-clock-step')] if rp['confirmed'] else [])
+
+
+def replay_latency():
+    """Live: a status query with ping on the real Connection / StatusReactor while the wall clock is set back by 5 s at every
+    reading (time.time only: the monotonic clocks are left alone)."""
+    import time as _time
+    got = []
+    c = Connection('host.example', 25565, allowed_versions={757})
+    c._connect = lambda: setattr(c, '_outgoing_packet_queue', deque())
+    c._start_network_thread = lambda: None
+    c.disconnect = lambda immediate=False: None
+    orig, state = _time.time, [0]
+
+    def stepped():
+        state[0] += 1
+        return orig() - 5.0 * state[0]
+    bad = None
+    _time.time = stepped
+    try:
+        c.status(handle_status=lambda s: None, handle_ping=got.append)
+        r = c.reactor
+        resp = clientbound.status.ResponsePacket()
+        resp.json_response = '{"version": {"protocol": 757}}'
+        c._outgoing_packet_queue.clear()
+        r.react(resp)
+        pings = [p for p in c._outgoing_packet_queue if type(p) is serverbound.status.PingPacket]
+        if len(pings) == 1:
+            pong = clientbound.status.PingResponsePacket()
+            pong.time = pings[0].time
+            r.react(pong)
+    except Exception as e:      # noqa
+        bad = 'raised %r' % (e,)
+    finally:
+        _time.time = orig
+    if bad is None and (len(got) != 1 or not got[0] >= 0):
+        bad = 'handle_ping received %r: the reported latency is negative' % (got,)
+    return dict(confirmed=bad is not None, call='status(handle_ping=...) answered while time.time() is set back 5 s between the '
+                'ping and the pong', observed=bad or 'conforms')
 
 
 def c15_units():
